@@ -468,6 +468,27 @@ fn assign_thunk_blocks(
     num_blocks
 }
 
+/// Runs `assign_thunk_blocks` on `(start, end)` pairs. Returns the number of blocks and, per object,
+/// the block it ended up in and whether it owns that block.
+#[cfg(feature = "verif_hooks")]
+pub(crate) fn verif_assign_thunk_blocks(
+    objects: &[(u64, u64)],
+    max_branch_range: u64,
+) -> (usize, Vec<Option<(u32, bool)>>) {
+    let mut result = vec![None; objects.len()];
+    let num_blocks = assign_thunk_blocks(
+        objects
+            .iter()
+            .enumerate()
+            .map(|(i, &(start, end))| (FileId::new(0, i as u32), start, end)),
+        max_branch_range,
+        |fid, bid, is_owner| {
+            result[fid.file()] = Some((bid.0, is_owner));
+        },
+    );
+    (num_blocks, result)
+}
+
 impl<'data, 'state, P: Platform> ThunkBlockBuilder<'data, 'state, P> {
     fn build(mut self) -> ThunkBlock {
         verbose_timing_phase!("Build thunk block");
